@@ -76,7 +76,10 @@ func Patch(args []string) ([]string, error) { // TODO document and fix wordbreak
 	args = append(args[:1], tokens.CurrentPipeline().FilterRedirects().Words().Strings()...)
 
 	// TODO find a better solution to pass the wordbreakprefix to bash/action.go
-	wordbreakPrefix = tokens.CurrentPipeline().WordbreakPrefix()
+	wordbreakPrefix = ""
+	if pipeline := tokens.CurrentPipeline(); len(pipeline) > 0 { // empty after a trailing `;`, `|`, ...
+		wordbreakPrefix = pipeline.WordbreakPrefix()
+	}
 	compType = os.Getenv("COMP_TYPE")
 	unsetBashCompEnv()
 
